@@ -4,7 +4,7 @@
    reordering function of dir.c is the parameter `dr`; "ord is a permutation" is the hypothesis
    dr_perm, discharged for the model of dir.c by C18_permutation. *)
 From Coq Require Import List NArith ZArith Bool Permutation.
-From NV Require Import Bytes UcDefs GenUcTables GenConf GenConsts DirDefs RenDefs RenProps.
+From NV Require Import Bytes UcDefs UcSpec GenUcTables GenConf GenConsts DirDefs RenDefs RenProps.
 Import ListNotations.
 Local Open Scope Z_scope.
 
@@ -103,6 +103,13 @@ Theorem C17_cursor : forall dr o,
   ren_cursor dr o s p = ren_pos dr o s (Z.of_nat k) + ren_cwid (chr_of o s k) (ren_pos dr o s (Z.of_nat k)) - 1.
 Proof. exact ren_cursor_spec. Qed.
 Print Assumptions C17_cursor.
+
+(* on valid UTF-8 the characters of both paths of ren_position are the code points of the line (C16),
+   so the tiling, round-trip and neighbour theorems speak about the line's characters *)
+Theorem C17_chars_valid : forall o cs j, Forall scalar cs -> (j <= length cs)%nat ->
+  chr_of o (chars cs) j = chars (skipn j cs).
+Proof. exact chr_of_valid. Qed.
+Print Assumptions C17_chars_valid.
 
 (* the hypothesis is satisfiable (no reordering), and the functions compute: "a<TAB>中b" *)
 Example C17_nonvacuous :
